@@ -1257,6 +1257,72 @@ def check_wide(ctx, drv):
     return problems
 
 
+# --------------------------------------------------------------------------- completeness of extracts (no row identifier, repeated rows)
+def extract_case(rng, k):
+    """k tables WITHOUT any identifying column whose rows repeat in full (extracts of names): completeness counts ROWS, so repeated rows
+    count as often as they occur."""
+    dom_a, dom_b = ["ann", "bob", None], ["x", None, None]
+    tables = []
+    for _ in range(k):
+        base = [{"a": rng.choice(dom_a), "b": rng.choice(dom_b)} for _ in range(rng.randint(1, 3))]
+        tables.append([dict(rng.choice(base)) for _ in range(rng.randint(2, 9))])
+    return {"engine": "duckdb", "tables": tables, "via": rng.choice(["public", "internal"]), "names": rng.random() < 0.5, "tag": "extracts"}
+
+
+def run_extract(case):
+    from splink.exploratory import completeness_chart
+    from splink.internals.completeness import completeness_data
+
+    from harness import impl
+
+    k = len(case["tables"])
+    api = impl.make_api("duckdb", threads=2)
+    dfs = [impl.typed_frame(t, {"a": "str", "b": "str"}) for t in case["tables"]]
+    names = ALIASES[:k] if case["names"] else None
+    if case["via"] == "public":
+        chart = completeness_chart(dfs if k > 1 else dfs[0], api, **({"table_names_for_chart": names} if names else {})).to_dict()
+        recs = list(chart["datasets"].values())[0] if chart.get("datasets") else chart["data"].get("values", [])
+    else:
+        recs = completeness_data(api.register_multiple_tables(dfs), api, None, names)
+    return {"compl": [dict(r) for r in recs]}
+
+
+run_extract_safe = core.safe(run_extract)
+
+
+def check_extracts(ctx):
+    rng = ctx.rng
+    cases = [extract_case(rng, k) for k in (1, 2, 2, 3) for _ in range(ctx.budget(4, 30))]
+    problems = []
+    for c, r in zip(cases, core.pmap(run_extract_safe, cases)):
+        ctx.case({"extracts": [len(t) for t in c["tables"]], "via": c["via"]}, True)
+        ctx.count("family", "extracts_without_row_id")
+        ctx.count("extracts_tables", len(c["tables"]))
+        ctx.count("extracts_rows_repeated_in_full", any(len({json.dumps(x, sort_keys=True) for x in t}) < len(t) for t in c["tables"]))
+        if core.impl_error(r):
+            problems.append((c, f"real code raised {r['__error__']}: {r['text'][:300]}", True))
+            continue
+        by_ds: dict = {}
+        for x in r["compl"]:
+            by_ds.setdefault(x["source_dataset"], {})[x["column_name"]] = (x["total_null_rows"], x["total_rows_inc_nulls"], x["completeness"])
+        want = []
+        for t in c["tables"]:
+            want.append({nm: (sum(1 for x in t if x[nm] is None), len(t), sum(1 for x in t if x[nm] is not None) / len(t)) for nm in ("a", "b")})
+        # the datasets carry the given names, or names of Splink's choosing: compare as a multiset of per-dataset figures
+        if c["names"]:
+            got = [by_ds.get(nm) for nm in ALIASES[: len(c["tables"])]]
+        else:
+            got = sorted(by_ds.values(), key=lambda d: json.dumps(d, sort_keys=True, default=str))
+            want = sorted(want, key=lambda d: json.dumps(d, sort_keys=True, default=str))
+        ok = len(got) == len(want) and all(g is not None and set(g) == set(w) and all(g[nm][:2] == w[nm][:2] and core.close(g[nm][2], w[nm][2], 2e-7, 2e-7) for nm in w)
+                                           for g, w in zip(got, want))
+        if not ok:
+            problems.append((c, f"completeness of extracts without a row identifier differs from a recount of the rows: got {got} expected (nulls, rows, completeness) {want}", True))
+            continue
+        ctx.traces_validated += 1
+    return problems
+
+
 # --------------------------------------------------------------------------- profile_columns (audit: oracle only, no Lean model)
 PROFILE_EXPRS = [None, None, ["a"], ["c", "a"], ["b", "unique_id"], [["a", "b"]], ["lower:a"], ["a", ["b", "c"]]]
 
@@ -1621,6 +1687,7 @@ def run(ctx: core.Ctx):
 
         cases = list(graphs.load_corpus(PROP)) + adversarial_cases(ctx.rng) + [gen_case(ctx.rng) for _ in range(ctx.budget(600, 6000))]
         problems = check_wide(ctx, drv)
+        problems += check_extracts(ctx)
         ctx.exhaustive = True
         problems += compare(ctx, cases, drv)
         problems += check_profile(ctx)
@@ -1636,7 +1703,7 @@ def run(ctx: core.Ctx):
         if cls in reported or len(reported) >= 5:
             continue
         reported.add(cls)
-        if c.get("tag") in ("wide", "profile"):
+        if c.get("tag") in ("wide", "profile", "extracts"):
             ctx.violation("real output violates C20: " + cls, {"case": c, "detail": w}, kind="concrete", match_info={"failure": cls, "engine": c["engine"]})
             continue
         small = shrink(c, cls)
